@@ -22,6 +22,14 @@ CHECKS = {
             "Tolerance 1e-8*(|y|*||J^-1|| + |x|) + A*||J^-1|| with J from float64 autograd / one-sided FD at special points; rows "
             "with ||J^-1|| > 1e6, saturating chains, or conditioner outputs beyond |10| are inconclusive (counted).",
             "DESIGN.md 3/C02"),
+    "C03": ("Hypothesis-generated flows over normal bases; adaptive Gauss-Legendre quadrature of exp(log_prob) on knot-aligned "
+            "panels (1-D all regimes, 2-D bounded distortion, iterated) with error estimate; closed-form differential in <= 6 D",
+            "Exploration: total mass of 1-D flows over two independent integration boxes (inverse image of the base's 9-sigma box "
+            "and a fixed [-60, 60]) and of 2-D flows within an evaluation budget; log_prob = my closed-form base log-density at "
+            "T(x) + T's log-abs-det for compositions with context in up to 6 dimensions.",
+            "Unresolved integrals (err > 1e-5, budget) are inconclusive; CompositeCDF's declared logit clamp is treated as onto "
+            "only when it feeds the base directly; Sigmoid-temperature bookkeeping errors cancel inside CompositeCDF and are "
+            "caught by C01 instead.", "DESIGN.md 3/C03"),
     "C04": ("Hypothesis-generated flows (zoo transforms, conditional/mixture bases, embedding nets, MAF, RealNVP) x contexts x "
             "num_samples; differential pairing of sample_and_log_prob with log_prob per draw, row-identifying base, KS tests "
             "against cumulative quadrature of the density and against the base distribution",
